@@ -572,7 +572,15 @@ def web_wiring():
             a = 'DefaultHeaders' if dh else a
         chain.append((name, a))
     scope = [('scope', m.group(1))] + chain
-    other = norm(head) + '|' + norm(cb[j:])
+    tail = cb[j:]
+    # the default service for requests no route matches: `cfg.default_service(web::to(|| async { HttpResponse::NotFound()
+    # .insert_header((K, V)) … .finish() }))`  ->  ("default_service", "404:K=V;…")
+    dm = re.search(r'cfg\s*\.\s*default_service\s*\(\s*web::to\s*\(\s*\|\|\s*async\s*\{\s*HttpResponse::NotFound\(\)((?:\s*\.insert_header\(\(\s*"[^"]*"\s*,\s*"[^"]*"\s*\)\))*)\s*\.finish\(\)\s*\}\s*\)\s*\)\s*;', tail)
+    if dm:
+        hs = re.findall(r'\.insert_header\(\(\s*"([^"]*)"\s*,\s*"([^"]*)"\s*\)\)', dm.group(1))
+        scope.append(('default_service', '404:' + ';'.join(f'{k}={v}' for k, v in hs)))
+        tail = tail[:dm.start()] + tail[dm.end():]
+    other = norm(head) + '|' + norm(tail)
     scope.append(('around', other))
     ab = fn_block(mod, 'api_scope')
     services = [norm(a) for n, a in chain_calls(ab[ab.index('web::scope'):]) if n == 'service']
